@@ -142,6 +142,7 @@ pub fn is_rejection(kind: &str) -> bool {
             | "CombinedRuleset"
             | "SubsumeMerge"
             | "UnsupportedProofCommand"
+            | "Pop"
     )
 }
 
